@@ -60,6 +60,9 @@ func DecodeSgpdSR(hdr BoxHeader, startPos uint64, sr bits.SliceReader) (Box, err
 		if err != nil {
 			return nil, err
 		}
+		if b.Version >= 1 && sgEntry.Size() != uint64(descriptionLength) {
+			return nil, fmt.Errorf("sgpd: %s entry of %d bytes, description length is %d", b.GroupingType, sgEntry.Size(), descriptionLength)
+		}
 		b.SampleGroupEntries = append(b.SampleGroupEntries, sgEntry)
 	}
 
